@@ -14,3 +14,9 @@
         // funding any channel requires all inputs to be segwit
         r.is_ok() && c08_strict() && any_some(channels@) ==> all_true_flags(segwit_flags@),                          //[C08.onchain.funding-non-malleable]
         r.is_ok() && c08_strict() ==> tx.version == Version::TWO && tx_base_size(*tx) <= MAX_ONCHAIN_TX_SIZE,
+        // an "unknown destinations" refusal - the only one an approver may override - is issued only after the whole-transaction
+        // checks passed and every output that claims to fund a channel was accepted: approving the listed outputs cannot waive those
+        r.is_err() && ve_unknown_dest(r->Err_0) && c08_strict() ==>
+            (any_some(channels@) ==> all_true_flags(segwit_flags@))
+            && tx.version == Version::TWO && tx_base_size(*tx) <= MAX_ONCHAIN_TX_SIZE
+            && forall|i: int| 0 <= i < tx.output@.len() ==> known_or_plain_unknown(*wallet, #[trigger] tx.output@[i], opaths@[i], channels@[i]),   //[C08.onchain.unknown-refusal-only-after-other-checks]
